@@ -161,7 +161,9 @@ def export_cases(ctx, rng, n, tid0):
         ev = {"act": "Export", "exported": True, "refused": False, "same": True, "diff": [], "eb": eb, "yields": yl, "ices": chosen}
         try:
             with quiet():
-                extra = {"ode_modifier": {"H": {"factors": ["-1.0e-17*nH"], "reactants": [["H"]]}}, } if k % 2 == 0 else {}
+                # (an entry with NO dependency species is a constant source term; it stands before one that has a dependency)
+                extra = {"ode_modifier": {"H": {"factors": ["4.0e-20", "-1.0e-17*nH"], "reactants": [[], ["H"]]}, "CO": {"factors": ["2.0e-21"], "reactants": [[]]}}, } \
+                    if k % 2 == 0 else {}
                 if k % 3 == 1:
                     # an allowed list AND a required list, the required grain species (which no reaction mentions, and which the dust
                     # model's grain density is made of) being on both
@@ -327,6 +329,12 @@ def main(ctx: Ctx) -> int:
             reacs.append(Reaction(rec["r"], rec["p"], temp_min=rec["tmin"], temp_max=rec["tmax"], alpha=rec["a"], beta=rec["b"], gamma=rec["c"],
                                   reaction_type=ReactionType(ty), idxfromfile=rng.choice([-1, 3, 77777])))
             codes.append(("api", ty))
+        if k % 2 == 0 and reacs:
+            # the same channel listed again with other coefficients (two fits of one reaction, as merged databases have them): both are kept
+            r0 = reacs[0]
+            reacs.append(Reaction([x.name for x in r0.reactants], [x.name for x in r0.products], temp_min=r0.temp_min, temp_max=r0.temp_max,
+                                  alpha=r0.alpha * 3.0 + 1.0e-12, beta=r0.beta + 0.25, gamma=r0.gamma, reaction_type=r0.reaction_type, idxfromfile=r0.idxfromfile))
+            codes.append(("api", int(r0.reaction_type)))
         nets.append(("api", Network(reacs), codes))
     for fmt, rec in gas_table_cases():
         line, named, _ = F.encode(random.Random(1), fmt, dict(rec), "idx,R,R,R,P,P,P,P,P,Tmin,Tmax,rate") if False else (None, None, None)
